@@ -176,3 +176,33 @@ Example C17_sign_then_verify_example :
   = VOk "K"%char "sha256:d1".
 Proof. exact sign_then_verify_example. Qed.
 Print Assumptions C17_sign_then_verify_example.
+
+(* the dependency manager: `helm dependency update --verify` and (after repair ec82a5f)
+   `helm dependency build --verify` accept a dependency only if its provenance file was fetched
+   and VerifyChart passed *)
+Theorem C17_dependency_verify_fails_closed :
+  forall (keyring sigbody signer : Type)
+         (clearsign_decode : string -> option (string * sigbody))
+         (check_sig : keyring -> string -> sigbody -> option signer)
+         (sha256 : string -> string) (yaml_meta_ok : string -> bool)
+         (yaml_sums : string -> option (list (string * string)))
+         (kr : option keyring) (chart provf : option string) (name : string),
+    (manager_dep_ok keyring sigbody signer clearsign_decode check_sig sha256 yaml_meta_ok yaml_sums (dep_update_strategy true) kr chart provf name = true \/
+     manager_dep_ok keyring sigbody signer clearsign_decode check_sig sha256 yaml_meta_ok yaml_sums (dep_build_strategy true) kr chart provf name = true) ->
+    exists a pv by_ h, chart = Some a /\ provf = Some pv /\
+      verify_chart keyring sigbody signer clearsign_decode check_sig sha256 yaml_meta_ok yaml_sums false kr (Some pv) name a = VOk by_ h.
+Proof. exact dependency_verify_fails_closed. Qed.
+Print Assumptions C17_dependency_verify_fails_closed.
+
+(* witness on the unrepaired model: with --verify and NO provenance file the build went through *)
+Theorem C17_dep_build_unrepaired_refuted :
+  forall (keyring sigbody signer : Type)
+         (clearsign_decode : string -> option (string * sigbody))
+         (check_sig : keyring -> string -> sigbody -> option signer)
+         (sha256 : string -> string) (yaml_meta_ok : string -> bool)
+         (yaml_sums : string -> option (list (string * string)))
+         (kr : option keyring) (a name : string),
+    manager_dep_ok keyring sigbody signer clearsign_decode check_sig sha256 yaml_meta_ok yaml_sums
+                   (dep_build_strategy_unrepaired true) kr (Some a) None name = true.
+Proof. exact dep_build_unrepaired_refuted. Qed.
+Print Assumptions C17_dep_build_unrepaired_refuted.
